@@ -113,11 +113,12 @@ def hash_contraction(inputs, output, size_dict, optimize, **kwargs):
     """Compute a hash key for the specified contraction."""
     optimize = hash_prepare_optimize(optimize)
     kwargs = frozenset(kwargs.items())
-    return (
-        hash((inputs, output, tuple(size_dict.items()), optimize, kwargs)),
-        # add this as a basic way to decrease collisions
-        len(inputs),
-    )
+    key = (inputs, output, tuple(size_dict.items()), optimize, kwargs)
+    # make sure everything is hashable here (raising TypeError if not), but
+    # use the full specification as the key, rather than just its hash value,
+    # since different contractions can have colliding hashes
+    hash(key)
+    return key
 
 
 def normalize_input(
